@@ -365,7 +365,7 @@ def build(tier="quick", seed=0):
             want = {f.name for f in sel.g["FUNCTION_WHITELIST"]} | {"net", "r", "Type"} | set(L.import_module("flow.record.whitelist").g["WHITELIST_TREE"])  # helpers, net, r, Type, field type constructors
             # (names that begin with a double underscore are private helpers of the engine: no expression of the documented language can mention them)
             keys = {k for k in g if not k.startswith("__")}
-            ok = keys == want and all(g[f.name] is f for f in sel.g["FUNCTION_WHITELIST"]) and isinstance(g["r"], PObj) and g["r"].cls is sel.g["WrappedRecord"] and g["r"].attrs["record"] is rec
+            ok = keys == want and all(g[f.name] is f for f in sel.g["FUNCTION_WHITELIST"]) and isinstance(g["r"], PObj) and g["r"].cls is sel.g["WrappedRecord"] and any(v_ is rec for v_ in g["r"].attrs.values())
             ok = ok and v is rec.attrs["n"] and g is not s.attrs["ns"]
             return ok, f"namespace keys {sorted(keys)} (expected {sorted(want)}), r.n is the field value: {v is rec.attrs['n']}"
 
